@@ -37,6 +37,22 @@ package gormx
 //@   ensures #rollback !stepsOK ==> txRolledBack == old(txRolledBack) + 1 && txCommitted == old(txCommitted) && err != nil
 //@   ensures #nilmeanscommitted len(fnList) > 0 && err == nil ==> txCommitted == old(txCommitted) + 1
 //@   ensures #beginfailure len(fnList) > 0 && stepsRun == old(stepsRun) && txCommitted == old(txCommitted) && txRolledBack == old(txRolledBack) ==> err != nil
-//@   modifies txBegun, txCommitted, txRolledBack, stepsRun, stepsOK
+//@   ensures #commiterror txCommitted == old(txCommitted) + 1 ==> err == txCommitErr
+//@   ensures #beginerror len(fnList) > 0 && stepsRun == old(stepsRun) && txCommitted == old(txCommitted) && txRolledBack == old(txRolledBack) ==> err == txBeginErr
+//@   modifies txBegun, txCommitted, txRolledBack, txBeginErr, txCommitErr, stepsRun, stepsOK
 //@   loop 1
 //@     invariant err == nil && stepsOK && stepsRun == old(stepsRun) + idx$1 && txCommitted == old(txCommitted) && txRolledBack == old(txRolledBack) && txBegun == old(txBegun) + 1 && txn != nil
+//
+// Combine: the returned step runs the given steps in order and stops at the first failure (the funcval contract's
+// #noearlierfailure precondition is exactly "no step runs after a failed one"); harness in zz_harness_verif.go.
+//@ func verifCombineRun
+//@   requires stepsOK
+//@   maypanic
+//@   ensures #allrun result == nil ==> stepsOK && stepsRun == old(stepsRun) + len(fns)
+//@   ensures #failed result != nil ==> !stepsOK && stepsRun > old(stepsRun) && stepsRun <= old(stepsRun) + len(fns)
+//@   ensures_panic !stepsOK
+//@   modifies stepsRun, stepsOK
+//@ func Combine
+//@   inline
+//@   loop 1
+//@     invariant stepsOK && stepsRun == old(stepsRun) + idx$1
